@@ -30,6 +30,7 @@ theorem argFree_bindW (w : Nat) : ∀ p : SProg, argFree (bindW w p) = argFree p
   | .param _ _ _ => rfl
   | .skip => rfl | .bind _ => rfl | .ret _ => rfl | .var _ _ _ _ => rfl | .get _ _ => rfl
   | .put _ _ _ _ => rfl | .sow _ _ _ => rfl | .perturb _ _ _ => rfl | .child _ _ _ => rfl | .call _ _ _ => rfl
+  | .nested _ _ _ _ => rfl
 
 theorem argFree_bindArg (w : Option Nat) (p : SProg) : argFree (bindArg w p) = argFree p := by
   cases w <;> simp [bindArg, argFree_bindW]
@@ -189,6 +190,7 @@ theorem eval_argfree (cfg : Cfg) (hcap : cfg.capture = false) :
             obtain ⟨rfl, rfl⟩ := h
             refine ⟨{ push l' y with res := r }, by simp [eval, hc, he, hl.res_eq, hp1], ?_, hk⟩
             exact ⟨by simp [push, hl.env_len], rfl, hl.cursors_eq, hl.kids_eq⟩
+    | nested body m V a => simp [argFree] at hp
     | child cls name body =>
       simp only [argFree] at hp
       simp only [eval] at h
